@@ -46,7 +46,7 @@ namespace invdetail {
 // one ray from (bet1) with azimuth alp1 in [0,pi]: everything needed to evaluate crossing branches
 template <class T> struct Ray {
   const Ell<T>* E; T sbet1, cbet1, sbet2, cbet2;
-  T salp1, calp1, salp0, calp0, k2, ssig1, csig1, sig1, wmax;
+  T salp1, calp1, salp0, calp0, k2, ssig1, csig1, sig1, wmax, dsing, csing;
   T th, cth;        // sin(th) = sbet2 / calp0 ; cth = cos(th) >= 0
   bool ok; int nq;
   Ray(const Ell<T>& E_, T sb1, T cb1, T sb2, T cb2, T alp1) : E(&E_), sbet1(sb1), cbet1(cb1), sbet2(sb2), cbet2(cb2) {
@@ -60,24 +60,37 @@ template <class T> struct Ray {
     if (ssig1 == 0 && csig1 == 0) { ok = false; return; }     // exactly equatorial ray: handled separately by the caller
     { T h = hypot(ssig1, csig1); ssig1 /= h; csig1 /= h; }
     sig1 = atan2(ssig1, csig1);
-    T d;
-    if (k2 > 0) d = asinh(1 / sqrt(k2));
-    else if (k2 < 0) { T ik = 1 / sqrt(-k2); d = ik > 1 ? acosh(ik) : (T)1e-3; }
-    else d = 10;
-    // Gauss-Legendre panels no wider than the distance d to the nearest singularity: Bernstein-ellipse parameter >= 4.2,
-    // i.e. error <= 4.2^(-2 nq): 1e-20 for nq = 16 (long double), 1e-30 for nq = 24 (float128)
-    const bool lowprec = eps_of<T>::v() > (T)1e-25;
-    nq = lowprec ? 16 : 24;
-    T wcap = lowprec ? pi<T>() / 4 : pi<T>() / 8;
-    wmax = d < wcap ? d : wcap;
-    if (wmax < (T)2e-4) wmax = (T)2e-4;
+    // distance from the real axis to the branch points of sqrt(1 + k2 sin^2 sig); they sit above sig = n pi (k2 > 0)
+    // or sig = pi/2 + n pi (k2 < 0)
+    if (k2 > 0) { dsing = asinh(1 / sqrt(k2)); csing = 0; }
+    else if (k2 < 0) { T ik = 1 / sqrt(-k2); dsing = ik > 1 ? acosh(ik) : (T)1e-3; csing = pi<T>() / 2; }
+    else { dsing = 10; csing = 0; }
+    if (dsing < (T)1e-4) dsing = (T)1e-4;
+    // Gauss-Legendre panels graded geometrically towards the branch points: a panel of width h = 0.6 r starting at
+    // distance r from the nearest branch point keeps the Bernstein-ellipse parameter >= 4.4, i.e. error <= 4.4^(-2 nq):
+    // 1e-20 for nq = 16 (long double), 1e-30 for nq = 24 (float128)
+    nq = eps_of<T>::v() > (T)1e-25 ? 16 : 24;
+    wmax = 0;
     // crossing of the parallel bet2: sin(sig2) = sbet2/calp0, cos(sig2) = +-sqrt(cbet2^2 - salp0^2)/calp0
     if (!(calp0 > 0)) { ok = false; return; }
-    T s = sbet2 / calp0, c2 = (cbet2 - salp0) * (cbet2 + salp0);
+    // cbet2 - salp0 without cancellation when |bet2| ~ |bet1| and alp1 ~ pi/2:  1 - salp1 = calp1^2 / (1 + salp1)
+    T s = sbet2 / calp0, c2 = ((cbet2 - cbet1) + cbet1 * sq(calp1) / (1 + salp1)) * (cbet2 + salp0);
     if (c2 < 0) c2 = 0;                                         // tangency (|bet2| = |bet1|, alp1 = pi/2) up to round-off
     T c = sqrt(c2) / calp0;
     { T h = hypot(s, c); if (h == 0) { ok = false; return; } s /= h; c /= h; }
     th = atan2(s, c); cth = c;
+  }
+  T rsing(T x) const { T y = remainder(x - csing, pi<T>()); return hypot(y, dsing); }
+  template <class F> T graded(F&& f, T a, T b) const {
+    if (!(b > a)) return b == a ? (T)0 : -graded(f, b, a);
+    const GL<T>& g = gl<T>(nq);
+    T s = 0, x = a; const T hcap = pi<T>() / 4;
+    for (long it = 0; it < 10000000L && x < b; ++it) {
+      T h = (T)0.6 * rsing(x); if (h > hcap) h = hcap;
+      T y = x + h; if (y >= b || b - y < h / 8) y = b;
+      s += g.panel(f, x, y); x = y;
+    }
+    return s;
   }
   // arc from point 1 to the crossing (type, k); <= 0 if the crossing is not ahead of point 1
   T sig12_of(int type, int k) const { T sig2 = (type == 0 ? th : pi<T>() - th) + 2 * pi<T>() * k; return sig2 - sig1; }
@@ -87,12 +100,12 @@ template <class T> struct Ray {
     T s12 = sig12_of(type, k), sig2 = sig1 + s12;
     T ss2 = sin(th), cs2 = type == 0 ? cth : -cth;
     T kk = k2, f = E->f, f1 = E->f1;
-    T I3 = integrate<T>([kk, f, f1](T s) { return (2 - f) / (1 + f1 * sqrt(1 + kk * sq(sin(s)))); }, sig1, sig2, wmax, nq);
+    T I3 = graded([kk, f, f1](T s) { return (2 - f) / (1 + f1 * sqrt(1 + kk * sq(sin(s)))); }, sig1, sig2);
     return s12 + (domega(ss2, cs2) - domega(ssig1, csig1)) - f * salp0 * I3;
   }
   T length(int type, int k) const {
     T s12 = sig12_of(type, k), kk = k2;
-    return E->b * integrate<T>([kk](T s) { return sqrt(1 + kk * sq(sin(s))); }, sig1, sig1 + s12, wmax, nq);
+    return E->b * graded([kk](T s) { return sqrt(1 + kk * sq(sin(s))); }, sig1, sig1 + s12);
   }
 };
 
@@ -121,16 +134,21 @@ inline InvScan<T> ref_inverse_scan(double a, double f, double lat1d, double lat2
     if (cb == 0 || std::fabs(lat) == 90) cb = (T)1e-1000L;
     T h = hypot(sb, cb); sb /= h; cb /= h; };
   T sb1, cb1, sb2, cb2; redlat(la, sb1, cb1); redlat(lb, sb2, cb2);
+  // latitudes below 1e-100 rad are on the equator for every purpose here (displacement < 1e-90 m)
+  if (fabs(sb1) < (T)1e-100) { sb1 = 0; cb1 = 1; }
+  if (fabs(sb2) < (T)1e-100) { sb2 = 0; cb2 = 1; }
   const T PI = pi<T>();
   T L = (T)(l12 * (M_PIq / 180));                 // target longitude difference in (-pi, pi]
   T minax = E.a < E.b ? E.a : E.b;
-  T max_sig = (T)slimit / minax * (1 + (T)1e-9) + (T)1e-9;
+  // (+0.05 rad so that the grid neighbours of a root near the limit are still evaluated and bracket it)
+  T max_sig = (T)slimit / minax * (1 + (T)1e-9) + (T)0.05;
   if (!(max_sig < 3 * PI)) max_sig = 3 * PI;
   const T min_sig = (T)1e-10;
   std::vector<T> grid; grid.reserve(nrays + 8);
   for (int i = 0; i <= nrays; ++i) grid.push_back(PI * i / nrays);
   // refine the grid near the meridional directions, where lambda(alp1) is steep for near-polar points
-  for (int e = 1; e <= 12; ++e) { T d = PI / nrays * pow((T)0.1, e); grid.push_back(d); grid.push_back(PI - d); }
+  // ... and near the east/west direction, where it is steep for nearly equatorial pairs
+  for (int e = 1; e <= 14; ++e) { T d = PI / nrays * pow((T)0.1, e); grid.push_back(d); grid.push_back(PI - d); if (e & 1) { grid.push_back(PI / 2 - d * 3); grid.push_back(PI / 2 + d * 3); } else { grid.push_back(PI / 2 - d); grid.push_back(PI / 2 + d); } }
   std::sort(grid.begin(), grid.end());
   const int ntargets = (L == 0 || fabs(fabs(L) - PI) < (T)1e-30) ? 1 : 2;
 
@@ -138,16 +156,19 @@ inline InvScan<T> ref_inverse_scan(double a, double f, double lat1d, double lat2
     Ray<T> r(E, sb1, cb1, sb2, cb2, alp1); ++R.evals;
     if (!r.ok) { ok = false; return 0; }
     T s12 = r.sig12_of(type, k);
-    if (!(s12 > min_sig && s12 <= max_sig)) { ok = false; return 0; }
-    ok = true; return wrap_pi<T>(r.lam12(type, k) - target);
+    if (fabs(s12) <= min_sig) { ok = true; return -target; }     // branch ends at point 1 itself
+    if (!(s12 > min_sig && s12 <= 3 * PI + (T)0.05)) { ok = false; return 0; }
+    ok = true; return r.lam12(type, k) - target;
   };
   auto add_root = [&](T alp1, int type, int k, bool west, T target) {
     Ray<T> r(E, sb1, cb1, sb2, cb2, alp1);
     if (!r.ok) return;
     T s12 = r.sig12_of(type, k); if (!(s12 > min_sig)) return;
-    T g = wrap_pi<T>(r.lam12(type, k) - target);
-    if (!(fabs(g) < (T)1e-13)) return;             // not a zero (wrap discontinuity or branch end)
-    for (auto& q : R.roots) if (q.type == type && q.k == k && q.west == west && fabs(q.alp1 - alp1) < (T)1e-15) return;
+    T g = r.lam12(type, k) - target;
+    // not a zero (wrap discontinuity or branch end)?  The threshold is loose (grazing crossings are located with
+    // sqrt(eps) noise in long double); the float128 stage below measures the actual miss distance of every candidate.
+    if (!(fabs(g) < (T)1e-6)) return;
+    for (auto& q : R.roots) if (q.type == type && q.k == k && q.west == west && fabs(q.alp1 - alp1) < (T)1e-13) return;
     InvRoot<T> o; o.alp1 = alp1; o.type = type; o.k = k; o.west = west; o.sig12 = s12; o.s12 = r.length(type, k); o.resid = fabs(g);
     R.roots.push_back(o);
   };
@@ -164,27 +185,70 @@ inline InvScan<T> ref_inverse_scan(double a, double f, double lat1d, double lat2
     return fabs(glo) < fabs(ghi) ? lo : hi;
   };
 
+  // unrolled longitude of every crossing branch on every grid ray (computed once, shared by both targets)
+  const size_t NG = grid.size();
+  std::vector<T> lamc(NG * 8); std::vector<char> okc(NG * 8, 0);
+  // pass 1: which (ray, branch) pairs are of interest (arc within the length limit) -- no integrals yet
+  std::vector<Ray<T>> rays; rays.reserve(NG);
+  std::vector<char> want(NG * 8, 0);               // 0 = no, 1 = in range, 2 = branch ends at point 1, 3 = only as a bracket end
+  for (size_t i = 0; i < NG; ++i) {
+    rays.emplace_back(E, sb1, cb1, sb2, cb2, grid[i]); ++R.evals;
+    const Ray<T>& r = rays.back();
+    if (!r.ok) continue;
+    for (int type = 0; type < 2; ++type) for (int k = -1; k <= 2; ++k) {
+      T s12 = r.sig12_of(type, k);
+      int bi = type * 4 + (k + 1);
+      if (fabs(s12) <= min_sig) { want[i * 8 + bi] = 2; continue; }     // branch ends at point 1 itself
+      if (!(s12 > min_sig && s12 <= 3 * PI + (T)0.05)) continue;
+      want[i * 8 + bi] = 3;
+      if (s12 > max_sig) continue;
+      // every complete half wave costs at least  b * int_0^pi sqrt(1 + k2 sin^2) >= max(b pi, 2 b sqrt(k2)) (k2 > 0)
+      { T hw = floor(s12 / PI - (T)0.02), per = E.b * PI; if (r.k2 > 0) { T q = 2 * E.b * sqrt(r.k2); if (q > per) per = q; } else per = minax * PI;
+        if (hw >= 1 && hw * per > (T)slimit * (1 + (T)1e-6) + per * (T)0.05) continue; }
+      want[i * 8 + bi] = 1;
+    }
+  }
+  // pass 2: longitudes of the wanted crossings and of their grid neighbours on the same branch (so that a root next to the
+  // limit, or on a steep part of the branch, is still bracketed)
+  for (size_t i = 0; i < NG; ++i) for (int bi = 0; bi < 8; ++bi) {
+    char w = want[i * 8 + bi];
+    if (w == 0) continue;
+    if (w == 2) { okc[i * 8 + bi] = 2; lamc[i * 8 + bi] = 0; continue; }
+    bool need = w == 1 || (i > 0 && want[(i - 1) * 8 + bi] == 1) || (i + 1 < NG && want[(i + 1) * 8 + bi] == 1);
+    if (!need) continue;
+    okc[i * 8 + bi] = 1; lamc[i * 8 + bi] = rays[i].lam12(bi / 4, bi % 4 - 1);
+  }
+  const T TWO_PI = 2 * PI;
   for (int tg = 0; tg < ntargets; ++tg) {
     bool west = tg == 1;
-    T target = west ? -L : L;                      // east-going image must reach +-L (mod 2 pi)
+    // the east-going image must reach +-L modulo a full turn; lambda(alp1) is continuous (unrolled) along a branch, so the
+    // admissible targets t0 + 2 pi j are enumerated explicitly (no wrapping, hence no spurious sign changes)
+    T t0 = west ? -L : L; if (t0 < 0) t0 += TWO_PI;
     for (int type = 0; type < 2; ++type) for (int k = -1; k <= 2; ++k) {
-      std::vector<T> g(grid.size()); std::vector<char> ok(grid.size());
-      bool any = false;
-      for (size_t i = 0; i < grid.size(); ++i) { bool o; g[i] = geval(grid[i], type, k, target, o); ok[i] = o; any |= o; }
+      const int bi = type * 4 + (k + 1);
+      T lmin = 0, lmax = 0; bool any = false;
+      for (size_t i = 0; i < NG; ++i) if (okc[i * 8 + bi]) { T v = lamc[i * 8 + bi]; if (!any || v < lmin) lmin = v; if (!any || v > lmax) lmax = v; any = true; }
       if (!any) continue;
+      long j0 = (long)floor((double)((lmin - t0) / TWO_PI) - 1e-9), j1 = (long)ceil((double)((lmax - t0) / TWO_PI) + 1e-9);
+      if (j0 < 0) j0 = 0;
+      if (j1 > j0 + 64) j1 = j0 + 64;
+      for (long j = j0; j <= j1; ++j) {
+      const T target = t0 + TWO_PI * j;
+      std::vector<T> g(NG); std::vector<char> ok(NG);
+      for (size_t i = 0; i < NG; ++i) { ok[i] = okc[i * 8 + bi]; g[i] = ok[i] ? lamc[i * 8 + bi] - target : 0; }
       for (size_t i = 0; i < grid.size(); ++i) {
         if (!ok[i]) continue;
         // exact hits on grid nodes (meridional rays alp1 = 0, pi give lambda = 0 or pi exactly)
-        if (fabs(g[i]) < (T)1e-15) add_root(grid[i], type, k, west, target);
-        if (i + 1 < grid.size() && ok[i + 1]) {
-          if ((g[i] > 0) != (g[i + 1] > 0) && g[i] != 0 && g[i + 1] != 0 && fabs(g[i]) < PI / 2 && fabs(g[i + 1]) < PI / 2) {
+        if (ok[i] == 1 && fabs(g[i]) < (T)1e-15) add_root(grid[i], type, k, west, target);
+        if (i + 1 < grid.size() && ok[i + 1] && !(ok[i] == 2 && ok[i + 1] == 2)) {
+          if ((g[i] > 0) != (g[i + 1] > 0) && g[i] != 0 && g[i + 1] != 0) {
             T x = bisect(grid[i], g[i], grid[i + 1], g[i + 1], type, k, target);
             add_root(x, type, k, west, target);
           }
         }
         // tangential (near-double) zeros: local minimum of |g| without a sign change
-        if (i > 0 && i + 1 < grid.size() && ok[i - 1] && ok[i + 1] && (g[i - 1] > 0) == (g[i] > 0) && (g[i + 1] > 0) == (g[i] > 0)
-            && fabs(g[i]) <= fabs(g[i - 1]) && fabs(g[i]) <= fabs(g[i + 1]) && fabs(g[i]) < (T)0.02) {
+        if (i > 0 && i + 1 < grid.size() && ok[i] == 1 && ok[i - 1] == 1 && ok[i + 1] == 1 && (g[i - 1] > 0) == (g[i] > 0) && (g[i + 1] > 0) == (g[i] > 0)
+            && fabs(g[i]) <= fabs(g[i - 1]) && fabs(g[i]) <= fabs(g[i + 1]) && (fabs(g[i]) < fabs(g[i - 1]) || fabs(g[i]) < fabs(g[i + 1])) && fabs(g[i]) < (T)0.02) {
           T sgn = g[i] > 0 ? 1 : -1, lo = grid[i - 1], hi = grid[i + 1];
           const T gr = (T)0.6180339887498948482L;
           T x1 = hi - gr * (hi - lo), x2 = lo + gr * (hi - lo); bool o1, o2;
@@ -199,8 +263,9 @@ inline InvScan<T> ref_inverse_scan(double a, double f, double lat1d, double lat2
           if (crossed) {
             T xa = bisect(grid[i - 1], g[i - 1], xc, sgn * fc, type, k, target); add_root(xa, type, k, west, target);
             T xb = bisect(xc, sgn * fc, grid[i + 1], g[i + 1], type, k, target); add_root(xb, type, k, west, target);
-          } else if (o1 && o2) { add_root(f1 < f2 ? x1 : x2, type, k, west, target); }     // accepted only if |g| < 1e-13
+          } else if (o1 && o2) { add_root(f1 < f2 ? x1 : x2, type, k, west, target); }     // accepted only if |g| is tiny
         }
+      }
       }
     }
   }
@@ -209,35 +274,59 @@ inline InvScan<T> ref_inverse_scan(double a, double f, double lat1d, double lat2
     T lam = fabs(L);
     if (lam > 0) { InvRoot<T> o; o.alp1 = PI / 2; o.type = 2; o.k = 0; o.west = L < 0; o.sig12 = lam / E.f1; o.s12 = E.a * lam; o.resid = 0; R.roots.push_back(o); }
   }
-  std::sort(R.roots.begin(), R.roots.end(), [](const InvRoot<T>& x, const InvRoot<T>& y) { return x.s12 < y.s12; });
+  // nearly equatorial pairs: meridian hop to the equator + equatorial arc + meridian hop is a joining PATH (not a
+  // geodesic); its length is a rigorous upper bound of the shortest distance and complements the grazing rays
+  if (std::fabs(la) < 1e-6 && std::fabs(lb) < 1e-6 && !(sb1 == 0 && sb2 == 0)) {
+    T hop = (T)1.0001 * (sq(E.b) / E.a) * (T)(std::fabs(la) + std::fabs(lb)) * deg<T>();
+    InvRoot<T> o; o.alp1 = PI / 2; o.type = 3; o.k = 0; o.west = L < 0; o.sig12 = fabs(L) / E.f1; o.s12 = E.a * fabs(L) + hop; o.resid = 0; R.roots.push_back(o);
+  }
+  // order by the upper bound  length + (longitude residual as a ground distance): exact roots come before loose ones
+  { const T aa = E.a; std::sort(R.roots.begin(), R.roots.end(), [aa](const InvRoot<T>& x, const InvRoot<T>& y) { return x.s12 + x.resid * aa < y.s12 + y.resid * aa; }); }
   R.nroots = (int)R.roots.size();
   if (R.nroots) {
-    R.smin = R.roots[0].s12; R.smin_q = (__float128)R.smin;
-    const InvRoot<T>& w = R.roots[0];
-    R.azi_origin_q = (__float128)(w.alp1 / deg<T>()) * (w.west ? -1 : 1);
-    if (w.type < 2) {
-      // float128 polish of the winner: secant iterations on the same branch
-      typedef __float128 Q;
-      Ell<Q> Eq((Q)a, (Q)f);
-      auto redq = [&](double lat, Q& sb, Q& cb) { Q sp, cp; sincosd<Q>((Q)lat, sp, cp); sb = Eq.f1 * sp; cb = cp;
-        if (cb == 0 || std::fabs(lat) == 90) cb = (Q)1e-1000Q; Q h = hypot(sb, cb); sb /= h; cb /= h; };
-      Q qb1, qc1, qb2, qc2; redq(la, qb1, qc1); redq(lb, qb2, qc2);
-      Q tq = (w.west ? -1 : 1) * l12 * (M_PIq / 180);
-      auto gq = [&](Q x) { Ray<Q> r(Eq, qb1, qc1, qb2, qc2, x); return r.ok ? wrap_pi<Q>(r.lam12(w.type, w.k) - tq) : (Q)0; };
-      Q x0 = (Q)w.alp1, h = (Q)1e-12 * (1 + x0);
-      bool interior = x0 > 2 * h && x0 < pi<Q>() - 2 * h;
-      if (interior) {
-        Q x1 = x0 + h, g0 = gq(x0), g1 = gq(x1);
-        for (int it = 0; it < 4 && g1 != g0; ++it) {
-          Q x2 = x1 - g1 * (x1 - x0) / (g1 - g0);
-          if (!(fabs(x2 - (Q)w.alp1) < (Q)1e-9)) break;             // ill-conditioned (near-double root): keep the long double root
-          x0 = x1; g0 = g1; x1 = x2; g1 = gq(x1);
-          if (fabs(g1) < (Q)1e-30) break;
-        }
-        if (fabs(g1) <= fabs(gq((Q)w.alp1))) x0 = x1; else x0 = (Q)w.alp1;
+    R.smin = R.roots[0].s12 + R.roots[0].resid * E.a;
+    // float128 stage.  Every candidate close to the least length is re-traced with the float128 reference geodesic
+    // from the scan origin; two Newton steps in (azimuth, distance) remove the long double noise; the remaining
+    // miss distance r is ADDED to the length:  d(p1,p2) <= s + r  is a rigorous upper bound of the true shortest
+    // distance whatever the conditioning of the root was.
+    // (Newton steps in long double; the final trace of the best candidate is repeated in float128.)
+    typedef __float128 Q;
+    int done = 0;
+    T ubest = -1;                                   // least (length + possible along-track error of the long double root)
+    for (auto& w : R.roots) { T u = w.s12 + w.resid * E.a; if (ubest < 0 || u < ubest) ubest = u; }
+    T bestU = -1, bestazi = 0, bests = 0; bool bestnegz = false;
+    T Xt[3]; to_xyz<T>(E, (T)lb, (T)l12, Xt);
+    for (auto& w : R.roots) {
+      if (w.s12 - w.resid * E.a > ubest + (T)1e-3 * (T)a / 6.4e6L) continue;
+      if (bestU >= 0 && w.s12 - w.resid * E.a > bestU) continue;          // cannot improve on what has been confirmed already
+      if (w.type >= 2) { if (bestU < 0 || w.s12 < bestU) { bestU = w.s12; bestazi = (w.west ? -90 : 90); bests = -1; } continue; }
+      if (done >= 4) break;
+      ++done;
+      T azi = (w.alp1 / deg<T>()) * (w.west ? -1 : 1), s = w.s12;
+      bool negz = w.west && w.alp1 == 0;
+      for (int it = 0; it < 4; ++it) {
+        GeodLine<T> Ll(E, (T)la, azi, negz);
+        GeodPos<T> P = Ll.at_dist(s);
+        T Xp[3], t[3], n[3]; to_xyz<T>(E, P.lat2, P.lon12, Xp);
+        dir_xyz<T>(P.lat2, P.lon12, P.azi2, t); dir_xyz<T>(P.lat2, P.lon12, P.azi2 + 90, n);
+        T rv[3] = {Xt[0] - Xp[0], Xt[1] - Xp[1], Xt[2] - Xp[2]};
+        T r = sqrt(sq(rv[0]) + sq(rv[1]) + sq(rv[2]));
+        T U = s + r;
+        if (bestU < 0 || U < bestU) { bestU = U; bestazi = azi; bests = s; bestnegz = negz; }
+        if (r < (T)1e-17 * (T)a) break;
+        T rt = rv[0] * t[0] + rv[1] * t[1] + rv[2] * t[2], rn = rv[0] * n[0] + rv[1] * n[1] + rv[2] * n[2];
+        s += rt;
+        if (fabs(P.m12) > 1000 * fabs(rn)) azi += rn / P.m12 / deg<T>();
       }
-      Ray<Q> r(Eq, qb1, qc1, qb2, qc2, x0);
-      if (r.ok) { R.smin_q = r.length(w.type, w.k); R.azi_origin_q = x0 / deg<Q>() * (w.west ? -1 : 1); }
+    }
+    if (bestU >= 0 && bests < 0) { R.smin_q = (Q)bestU; R.azi_origin_q = (Q)bestazi; }
+    else if (bestU >= 0) {
+      Ell<Q> Eq((Q)a, (Q)f);
+      Q Xq[3], Xp[3]; to_xyz<Q>(Eq, (Q)lb, l12, Xq);
+      GeodLine<Q> Lq(Eq, (Q)la, (Q)bestazi, bestnegz);
+      GeodPos<Q> P = Lq.at_dist((Q)bests);
+      to_xyz<Q>(Eq, P.lat2, P.lon12, Xp);
+      R.smin_q = (Q)bests + dist3(Xq, Xp); R.azi_origin_q = (Q)bestazi;
     }
   }
   return R;
